@@ -127,7 +127,7 @@ def _conv(prop, base):
             cycle_checks.generic_battery(v, prop, 60 * SIZES[tier])      # generic classes: documented for Converter only
         if prop == "C02":
             pass_checks.check_c02_passthrough(v, 60 * SIZES[tier])
-        union_checks.union_battery(v, prop, 50 * SIZES[tier])
+        union_checks.union_battery(v, prop, 50 * SIZES[tier], b.t1_summary)
     return run
 
 
@@ -142,8 +142,9 @@ RULE_DISP = ("sessions of public-API operations (register_*_hook on classes/NewT
              "and 13 predicates; a case is non-trivial if it has >= 3 operations of >= 2 kinds; distinct = distinct sha1 of the step list")
 
 REGISTRY = {
-    "C01": {"props_file": "Props/C01.v", "files": CORE_CONV + ["Model/TdTemplates.v", "Proofs/TdProofs.v", "Proofs/TdRoundtrip.v", "Proofs/UnstructProofs.v", "Proofs/ClassRoundtrip.v", "Proofs/ConvRoundtrip.v", "Proofs/ConvCfg.v", "Props/C01.v"],
-            "run": _conv("C01", 40), "rule": RULE_CONV, "t1_sections": T1_CONV},
+    "C01": {"props_file": "Props/C01.v", "files": CORE_CONV + ["Model/TdTemplates.v", "Proofs/TdProofs.v", "Proofs/TdRoundtrip.v", "Model/Disambig.v", "Model/UnionStruct.v", "Gen/UStructSrc.v", "Gen/DisSrc.v",
+                                                             "Proofs/DisambigProofs.v", "Proofs/UnionStructProofs.v", "Proofs/SrcObligationsUnion.v", "Proofs/UnstructProofs.v", "Proofs/ClassRoundtrip.v", "Proofs/ConvRoundtrip.v", "Proofs/ConvCfg.v", "Props/C01.v"],
+            "run": _conv("C01", 40), "rule": RULE_CONV, "t1_sections": T1_CONV + ["disambig", "unionstruct"]},
     "C03": {"props_file": "Props/C03.v", "files": CORE_CONV + ["Model/ConvEnc.v", "Proofs/UnstructProofs.v", "Proofs/ClassRoundtrip.v", "Proofs/ConvSound.v", "Proofs/ConvPrim.v", "Proofs/ConvRoundtrip.v", "Proofs/ConvEncProofs.v", "Proofs/ConvCfg.v", "Props/C03.v"],
             "run": _conv("C03", 40), "rule": RULE_CONV, "t1_sections": T1_CONV},
     "C06": {"props_file": "Props/C06.v", "files": CORE_CONV + ["Proofs/UnstructProofs.v", "Proofs/ClassRoundtrip.v", "Proofs/ConvSound.v", "Proofs/ConvRoundtrip.v", "Proofs/ConvAgree.v", "Proofs/ConvMono.v", "Proofs/ConvUnAgree.v", "Proofs/ConvCfg.v", "Props/C06.v"],
@@ -169,7 +170,7 @@ REGISTRY = {
                     "literals); for json additionally the model comparison; per world the user-hook battery: a hook pair registered for an attrs class and for a dataclass, used at top level, "
                     "in a list, inside an attrs class and inside a dataclass, for every format; non-trivial = composite type or class, and every hook check; distinct = sha1 of "
                     "(world, format, type, value)"},
-    "C02": {"props_file": "Props/C02.v", "files": CORE_CONV + ["Model/TdTemplates.v", "Proofs/TdProofs.v", "Proofs/ConvSound.v", "Proofs/ConvCfg.v", "Props/C02.v"], "run": _conv("C02", 40), "rule": RULE_CONV, "t1_sections": T1_CONV},
+    "C02": {"props_file": "Props/C02.v", "files": CORE_CONV + ["Model/TdTemplates.v", "Proofs/TdProofs.v", "Model/Disambig.v", "Model/UnionStruct.v", "Gen/UStructSrc.v", "Proofs/ConvSound.v", "Proofs/ConvCfg.v", "Props/C02.v"], "run": _conv("C02", 40), "rule": RULE_CONV, "t1_sections": T1_CONV + ["disambig", "unionstruct"]},
     "C04": {"props_file": "Props/C04.v", "files": CORE_TPL + ["Model/Conv.v", "Proofs/TdProofs.v", "Proofs/UnstructProofs.v", "Proofs/ClassSound.v", "Proofs/ClassRoundtrip.v", "Proofs/ConvAgree.v", "Proofs/ConvCfg.v", "Props/C04.v"], "run": _c04,
             "rule": RULE_TPL + " ; PLUS the CONV worlds (see C01) extended with Counter / defaultdict / deque and TypedDict positions (oracle only): every structure call is repeated on the same converter class and options with the other validation mode", "t1_sections": ["gen", "converters", "hooks"]},
     "C09": {"props_file": "Props/C09.v", "files": CORE_TPL + ["Proofs/UnstructProofs.v", "Props/C09.v"], "run": _c09, "rule": RULE_TPL, "t1_sections": ["gen"]},
